@@ -248,8 +248,52 @@ func (s *slowStore) LoadOffset(ctx context.Context, id string) (eb.Offset, error
 	return s.inner.LoadOffset(ctx, id)
 }
 
+// subView is an explicit SubscriptionStore (WithSubscriptionStore): offsets go to a store of their own, while the event
+// store keeps its own, untouched, offset table; store operations are counted by the same plan
+type subView struct {
+	p      *planStore
+	inner  eb.SubscriptionStore
+	onLoad func()
+}
+
+func (v *subView) SaveOffset(ctx context.Context, id string, off eb.Offset) error {
+	if v.p.dead {
+		return errDead
+	}
+	fail, crash := v.p.tick()
+	var err error = errInjected
+	if !fail {
+		err = v.inner.SaveOffset(ctx, id, off)
+	}
+	if crash {
+		v.p.dead = true
+	}
+	return err
+}
+
+func (v *subView) LoadOffset(ctx context.Context, id string) (eb.Offset, error) {
+	if v.p.dead {
+		return "", errDead
+	}
+	if v.onLoad != nil {
+		v.onLoad()
+	}
+	fail, crash := v.p.tick()
+	var off eb.Offset
+	var err error = errInjected
+	if !fail {
+		off, err = v.inner.LoadOffset(ctx, id)
+	}
+	if crash {
+		v.p.dead = true
+	}
+	return off, err
+}
+
 type resumeCase struct {
 	paged     bool
+	sub       *subView // explicit subscription store, if any
+	subFirst  bool     // WithSubscriptionStore is given before WithStore
 	ps        *planStore
 	bus       *eb.EventBus
 	delivered map[int][]int
@@ -257,10 +301,24 @@ type resumeCase struct {
 }
 
 func (rc *resumeCase) newBus() *eb.EventBus {
-	if rc.paged {
-		return eb.New(eb.WithStore(&pagedStore{p: rc.ps}))
+	var st eb.EventStore = rc.ps
+	if rc.sub != nil {
+		rc.sub.onLoad = nil
 	}
-	return eb.New(eb.WithStore(rc.ps))
+	if rc.paged {
+		pg := &pagedStore{p: rc.ps}
+		st = pg
+		if rc.sub != nil {
+			rc.sub.onLoad = func() { pg.first = true }
+		}
+	}
+	if rc.sub != nil {
+		if rc.subFirst {
+			return eb.New(eb.WithSubscriptionStore(rc.sub), eb.WithStore(st))
+		}
+		return eb.New(eb.WithStore(st), eb.WithSubscriptionStore(rc.sub))
+	}
+	return eb.New(eb.WithStore(st))
 }
 
 func (rc *resumeCase) publishTy(ty, r int) {
@@ -307,6 +365,9 @@ func resumeDomain(lines []string) []string {
 			return nil
 		}
 		var inner fullStore
+		split := strings.HasSuffix(kind, "+sub") || strings.HasSuffix(kind, "+bus")
+		rc.subFirst = strings.HasSuffix(kind, "+bus")
+		kind = strings.TrimSuffix(strings.TrimSuffix(kind, "+sub"), "+bus")
 		rc.paged = kind == "paged"
 		if kind == "sqlite" {
 			dir, _ := os.MkdirTemp("", "verifresume")
@@ -321,6 +382,12 @@ func resumeDomain(lines []string) []string {
 			inner = eb.NewMemoryStore()
 		}
 		rc.ps = &planStore{inner: inner, failAt: failAt, crashAfter: crashAfter}
+		if split {
+			// the offsets live in a store of their own: a separate MemoryStore, which keeps offset strings verbatim
+			// (the SQLite store re-formats the offsets it is given, so it can only keep its own)
+			var subInner eb.SubscriptionStore = eb.NewMemoryStore()
+			rc.sub = &subView{p: rc.ps, inner: subInner}
+		}
 		rc.bus = rc.newBus()
 		return nil
 	}
@@ -430,13 +497,22 @@ func resumeDomain(lines []string) []string {
 		}
 	}
 	if rc.ps == nil {
-		return out
+		return append(out, "log -", "nops 0")
 	}
 	// final dump, read from the inner store
 	sort.Ints(rc.ids)
 	for _, id := range rc.ids {
-		off, _ := rc.ps.inner.LoadOffset(ctx, fmt.Sprintf("sub%d", id))
+		var offsets eb.SubscriptionStore = rc.ps.inner
+		if rc.sub != nil {
+			offsets = rc.sub.inner
+		}
+		off, _ := offsets.LoadOffset(ctx, fmt.Sprintf("sub%d", id))
 		out = append(out, fmt.Sprintf("id %d saved=%d delivered=%s", id, atoi(strings.TrimLeft(string(off), "0")), showNatList(rc.delivered[id])))
+		if rc.sub != nil {
+			// the event store's own offset table must stay untouched
+			off, _ := rc.ps.inner.LoadOffset(ctx, fmt.Sprintf("sub%d", id))
+			out = append(out, fmt.Sprintf("evstore-saved %d %d", id, atoi(strings.TrimLeft(string(off), "0"))))
+		}
 	}
 	evs, _, _ := rc.ps.inner.Read(ctx, eb.OffsetOldest, 0)
 	var parts []string
